@@ -292,34 +292,38 @@ STOP_TABLE = {
 DOCUMENTED_STOPS = {'func', 'm', 'e', 'nswp', 'conv', 'e_vld', 'cb'}
 
 
+def _fact(gs, lpred, op, rpred):
+    """A comparison ``l <op> r`` implied by the guards (either spelling) whose
+    operands satisfy the predicates."""
+    from .paths import cmp_facts
+    for _, oc, _, l, r in cmp_facts(gs):
+        if oc is op and lpred(l) and rpred(r):
+            return True
+    return False
+
+
+def _is_none(x):
+    return isinstance(x, ast.Constant) and x.value is None
+
+
+def _stop_is_none(gs):
+    return _fact(gs, lambda l: _is_sub(l, 'info', 'stop'), ast.Is, _is_none)
+
+
 def _thr_guard_ok(mod, gs, key):
     """info[key] <= key  and  info[key] >= 0  and  not isinf(info[key]),
-    all under  info['stop'] is None."""
-    txt = [(src(mod, t).replace(' ', ''), pol) for t, pol in gs]
-    has_none = any(t == "info['stop']isNone" and pol for t, pol in txt)
-    flat = []
-    for t, pol in gs:
-        if pol:
-            flat.extend(conjuncts(t))
-    le = ge = fin = False
-    for c in flat:
-        if isinstance(c, ast.Compare) and len(c.ops) == 1:
-            l, r = c.left, c.comparators[0]
-            if isinstance(c.ops[0], ast.LtE) and _is_sub(l, 'info', key) and \
-                    isinstance(r, ast.Name) and r.id == key:
-                le = True
-            if isinstance(c.ops[0], ast.GtE) and _is_sub(r, 'info', key) and \
-                    isinstance(l, ast.Name) and l.id == key:
-                le = True
-            if isinstance(c.ops[0], ast.GtE) and _is_sub(l, 'info', key) and \
-                    isinstance(r, ast.Constant) and r.value == 0:
-                ge = True
-        if isinstance(c, ast.UnaryOp) and isinstance(c.op, ast.Not) and \
-                isinstance(c.operand, ast.Call) and \
-                isinstance(c.operand.func, ast.Attribute) and \
-                c.operand.func.attr == 'isinf':
-            fin = True
-    return has_none and le and ge and fin
+    all under  info['stop'] is None  (any spelling of the comparisons)."""
+    from .paths import guard_atoms
+    is_val = lambda x: _is_sub(x, 'info', key)
+    le = _fact(gs, is_val, ast.LtE,
+               lambda r: isinstance(r, ast.Name) and r.id == key)
+    ge = _fact(gs, is_val, ast.GtE,
+               lambda r: isinstance(r, ast.Constant) and r.value == 0)
+    fin = any((not pol) and isinstance(t, ast.Call) and
+              isinstance(t.func, ast.Attribute) and t.func.attr == 'isinf'
+              and t.args and is_val(t.args[0])
+              for t, pol in guard_atoms(gs))
+    return _stop_is_none(gs) and le and ge and fin
 
 
 def check_stop_writers(prog, rep, functions=None):
@@ -394,33 +398,26 @@ def check_stop_writers(prog, rep, functions=None):
 
 
 def _stop_guard(mod, fn, st, v, gs, pred, lit):
+    from .paths import guard_atoms
+    any_ = lambda x: True
     if pred == 'budget':
-        ok = any(pol and any(isinstance(c, ast.Compare) and
-                             any(_is_sub(x, 'info', 'm_max')
-                                 for x in ast.walk(c)) for c in conjuncts(t))
-                 for t, pol in gs)
+        ok = any(pol and isinstance(t, ast.Compare) and
+                 any(_is_sub(x, 'info', 'm_max') for x in ast.walk(t))
+                 for t, pol in guard_atoms(gs))
         return ok, 'under the budget test'
     if pred == 'none-result':
-        ok = any(pol and isinstance(t, ast.Compare) and len(t.ops) == 1 and
-                 isinstance(t.ops[0], ast.Is) and
-                 isinstance(t.comparators[0], ast.Constant) and
-                 t.comparators[0].value is None for t, pol in gs)
+        ok = _fact(gs, lambda l: isinstance(l, ast.Name), ast.Is, _is_none)
         return ok, 'under  <objective result> is None'
     if pred == 'cache-conv':
-        ok = any(pol and isinstance(t, ast.Compare) and len(t.ops) == 1 and
-                 isinstance(t.ops[0], ast.Gt) and
-                 _is_sub(t.left, 'info', 'm_cache') and
-                 any(_is_sub(x, 'info', 'm') for x in
-                     ast.walk(t.comparators[0])) for t, pol in gs)
+        ok = _fact(gs, lambda l: _is_sub(l, 'info', 'm_cache'), ast.Gt,
+                   lambda r: any(_is_sub(x, 'info', 'm')
+                                 for x in ast.walk(r)))
         return ok, 'under  info["m_cache"] > m_cache_scale * info["m"]'
     if pred == 'callback':
-        cb_ok = any(pol and isinstance(t, ast.Compare) and len(t.ops) == 1 and
-                    isinstance(t.ops[0], ast.Is) and
-                    isinstance(t.left, ast.Call) and
-                    isinstance(t.left.func, ast.Name) and
-                    t.left.func.id == 'cb' and
-                    isinstance(t.comparators[0], ast.Constant) and
-                    t.comparators[0].value is True for t, pol in gs)
+        cb_ok = _fact(gs, lambda l: isinstance(l, ast.Call) and
+                      isinstance(l.func, ast.Name) and l.func.id == 'cb',
+                      ast.Is, lambda r: isinstance(r, ast.Constant) and
+                      r.value is True)
         keep = isinstance(v, ast.BoolOp) and isinstance(v.op, ast.Or) and \
             any(_is_sub(x, 'info', 'stop') for x in v.values[:-1])
         return cb_ok and keep, 'under  cb(...) is True, keeping an earlier ' \
@@ -431,14 +428,9 @@ def _stop_guard(mod, fn, st, v, gs, pred, lit):
             'under  info["stop"] is None, %s is not None, 0 <= info[%r] <= ' \
             '%s, not inf' % (key, key, key)
     if pred == 'nswp':
-        txt = [(src(mod, t).replace(' ', ''), pol) for t, pol in gs]
-        has_none = any(t == "info['stop']isNone" and pol for t, pol in txt)
-        ge = any(pol and isinstance(t, ast.Compare) and len(t.ops) == 1 and
-                 isinstance(t.ops[0], ast.GtE) and
-                 _is_sub(t.left, 'info', 'nswp') and
-                 isinstance(t.comparators[0], ast.Name) and
-                 t.comparators[0].id == 'nswp' for t, pol in gs)
-        return has_none and ge, 'under  info["stop"] is None and ' \
+        ge = _fact(gs, lambda l: _is_sub(l, 'info', 'nswp'), ast.GtE,
+                   lambda r: isinstance(r, ast.Name) and r.id == 'nswp')
+        return _stop_is_none(gs) and ge, 'under  info["stop"] is None and ' \
             'info["nswp"] >= nswp'
     return False, 'unknown predicate'
 
@@ -645,17 +637,41 @@ def check_validation(prog, rep, qual='cross.cross'):
     mod = fn.module
     raises = [n for n in ast.walk(fn.node) if isinstance(n, ast.Raise)]
     first_effect = None
-    for st in fn.node.body:
+    from .paths import linear as _linear
+    for st in _linear(fn.node.body):
         if isinstance(st, ast.Expr) and isinstance(st.value, ast.Constant):
             continue
-        if isinstance(st, ast.If) and all(
-                isinstance(x, (ast.If, ast.Raise)) for x in _flat(st)):
+        if isinstance(st, ast.If) and _pure_rejection(st):
             continue
         first_effect = st
         break
     n_before = [r for r in raises if first_effect is None or
                 r.lineno < first_effect.lineno]
     return fn, mod, raises, n_before, first_effect
+
+
+def _pure_rejection(ifnode):
+    """The If only rejects: its exiting arm (the other arm, when present, is
+    the continuation spliced in by ``linear``) holds nothing but nested
+    rejections, raise statements and the assignment of their message."""
+    from .paths import always_exits
+    if ifnode.orelse and always_exits(ifnode.body):
+        arms = [ifnode.body]
+    elif ifnode.orelse and always_exits(ifnode.orelse):
+        arms = [ifnode.orelse]
+    else:
+        arms = [ifnode.body, ifnode.orelse]
+    for arm in arms:
+        for x in arm:
+            if isinstance(x, ast.Raise):
+                continue
+            if isinstance(x, ast.If) and _pure_rejection(x):
+                continue
+            if isinstance(x, ast.Assign) and \
+                    isinstance(x.value, (ast.Constant, ast.JoinedStr)):
+                continue
+            return False
+    return True
 
 
 def _flat(ifnode):
